@@ -3,7 +3,7 @@ From CoapV Require Import Base Header.
 
 (* BTreeMap<u16, LinkedList<Vec<u8>>> as an association list with strictly
    ascending keys.  A key may be present with an empty list (clear_option). *)
-Definition optmap := list (N * list bytes).
+Notation optmap := (list (N * list (list N))) (only parsing).
 
 Record packet := mkPacket {
   hdr : header;
